@@ -80,6 +80,17 @@ def run(ctx):
     for i in range(ctx.scale(2500, 60000)):
         text = gen.soup(ctx.rng, maxparts=8)
         run_one(ctx, text, ctx.rng.choice(frags))
+    # conforming documents record no errors
+    from h5 import conf
+    import html5lib
+    for i in range(ctx.scale(300, 8000)):
+        text = conf.render(conf.G(ctx.rng).document())
+        p = html5lib.HTMLParser()
+        p.parse(text)
+        ctx.case("conforming-no-errors", text, nontrivial=True)
+        if p.errors:
+            ctx.fail("conforming-document-reports-error:%s" % p.errors[0][1], "a conforming document records a parse error",
+                     {"input": text[:600], "errors": repr(p.errors[:3])})
     # every tokenizer error site: short strings over the tokenizer alphabet, raw and inside a tag / attribute value
     import itertools
     alpha = ["<", ">", "/", "!", "-", "?", "=", '"', "'", "&", "#", ";", "x", "A", "0", " ", "\x00", "]"]
